@@ -142,6 +142,7 @@ pub struct Node<'gc> {
     pub s: [Lock<Option<NodeGc<'gc>>>; 2],
     pub w: Lock<Option<GcWeak<'gc, Node<'gc>>>>,
     pub leaf: Lock<Option<LeafGc<'gc>>>,
+    pub wl: Lock<Option<GcWeak<'gc, RefLock<Leaf>>>>,
     pub cell: Lock<Option<CellRef<'gc>>>,
 }
 unsafe impl<'gc> Collect<'gc> for Node<'gc> {
@@ -151,6 +152,7 @@ unsafe impl<'gc> Collect<'gc> for Node<'gc> {
         cc.trace(&self.s[1]);
         cc.trace(&self.w);
         cc.trace(&self.leaf);
+        cc.trace(&self.wl);
         cc.trace(&self.cell);
     }
 }
@@ -209,6 +211,7 @@ pub struct SObj {
     pub s: [Option<u8>; 2],
     pub w: Option<u8>,
     pub leaf: Option<u8>,
+    pub wl: Option<u8>,
     pub cell: Option<u8>,
     pub dropped: bool,
     pub freed: bool,
@@ -386,7 +389,7 @@ impl World {
 
     /// New shadow object; returns its local id.
     pub fn alloc_id(&mut self, kind: u8) -> u8 {
-        self.sh.objs.push(SObj { kind, s: [None; 2], w: None, leaf: None, cell: None, dropped: false, freed: false });
+        self.sh.objs.push(SObj { kind, s: [None; 2], w: None, leaf: None, wl: None, cell: None, dropped: false, freed: false });
         assert!(self.sh.objs.len() < 120, "harness: id space exhausted");
         (self.sh.objs.len() - 1) as u8
     }
@@ -526,6 +529,15 @@ impl World {
                         }
                         (a, b) => viol!("safe.traversal", "object {id} weak: shadow {:?} real {}", a, b.is_some()),
                     }
+                    match (so.wl, g.wl.get()) {
+                        (None, None) => {}
+                        (Some(t), Some(wg)) => {
+                            if self.id_of_addr(wg.as_ptr() as *const () as usize) != Some(t) {
+                                viol!("safe.traversal", "object {id} weak-leaf slot does not refer to object {t}");
+                            }
+                        }
+                        (a, b) => viol!("safe.traversal", "object {id} weak-leaf: shadow {:?} real {}", a, b.is_some()),
+                    }
                 }
                 Obj::Leaf(g) => {
                     if so.kind != KLEAF {
@@ -571,7 +583,7 @@ impl World {
         // C05: before a weak query the target block must still be allocated
         for (i, o) in self.sh.objs.iter().enumerate() {
             if reach[i] {
-                if let Some(t) = o.w {
+                for t in o.w.into_iter().chain(o.wl) {
                     if self.sh.objs[t as usize].freed {
                         viol!("c05.weak_block_released", "reachable object {i} holds a weak pointer to object {t} whose block was released");
                     }
@@ -586,6 +598,33 @@ impl World {
             for (i, o) in this.sh.objs.iter().enumerate() {
                 if !reach[i] || o.kind != KNODE {
                     continue;
+                }
+                if let Some(t) = o.wl {
+                    let w = m[i].unwrap().node().wl.get().unwrap();
+                    let td = this.sh.objs[t as usize].dropped;
+                    if w.is_dropped() != td {
+                        viol!("c05.is_dropped", "is_dropped() = {} for leaf target {t} whose destructor has{} run", w.is_dropped(), if td { "" } else { " not" });
+                    }
+                    match w.upgrade(mc) {
+                        Some(g) => {
+                            up_ok[ph(phase) as usize] += 1;
+                            if td {
+                                viol!("c05.upgrade_dropped", "upgrade returned a pointer to destructed leaf {t}");
+                            }
+                            if g.borrow().id != this.base + t as u32 {
+                                viol!("c05.upgrade_identity", "upgrade of weak to leaf {t} reads another value");
+                            }
+                        }
+                        None => {
+                            up_no[ph(phase) as usize] += 1;
+                            if reach[t as usize] {
+                                viol!("c05.upgrade_reachable_failed", "upgrade failed for strongly reachable leaf {t} in phase {:?}", phase);
+                            }
+                            if !td && phase != CollectionPhase::Sweeping {
+                                viol!("c05.upgrade_spurious", "upgrade failed for undestructed leaf {t} in phase {:?}", phase);
+                            }
+                        }
+                    }
                 }
                 let Some(t) = o.w else { continue };
                 let w = m[i].unwrap().node().w.get().unwrap();
@@ -702,7 +741,7 @@ impl World {
             match idof(o.addr) {
                 Some(id) if id < 120 => {
                     let so = &self.sh.objs[id as usize];
-                    v.extend([flags, so.kind, p(so.s[0]), p(so.s[1]), p(so.w), p(so.leaf), p(so.cell)]);
+                    v.extend([flags, so.kind, p(so.s[0]), p(so.s[1]), p(so.w), p(so.leaf), p(so.wl), p(so.cell)]);
                 }
                 Some(id) => v.extend([flags, 0x70 + (id - 120)]),
                 None => v.extend([flags, 0x7f]),
